@@ -44,10 +44,18 @@ class Task:
 
 
 class PrngChooser:
-    def __init__(self, rng, p_line=0.0, p_label=1.0):
+    def __init__(self, rng, p_line=0.0, p_label=1.0, focus=None, p_focus=0.0):
+        """focus: substring of a source path (e.g. "/output/", "parser.py"); line events in matching files
+        pre-empt with probability p_focus instead of p_line.  A uniform per-line probability spends nearly
+        all switches inside PLY's lexer / LR loop (99% of the lines executed, all per-object state); a
+        per-run focus file (swarm style) puts dense pre-emption where short check-then-use windows on
+        shared state would be."""
         self.rng = rng
         self.p_line = p_line
         self.p_label = p_label
+        self.focus = focus
+        self.p_focus = p_focus
+        self._is_focus = {}
         self.recorded = []      # [tid, dp, next_tid]
 
     def at_label(self, cur, dp, runnable):
@@ -57,8 +65,15 @@ class PrngChooser:
             self.recorded.append([cur, dp, pick])
         return pick
 
-    def at_line(self, cur, dp, others):
-        if not others or self.rng.random() >= self.p_line:
+    def at_line(self, cur, dp, others, filename=None):
+        p = self.p_line
+        if self.focus is not None and filename is not None:
+            f = self._is_focus.get(filename)
+            if f is None:
+                f = self._is_focus[filename] = self.focus in filename
+            if f:
+                p = self.p_focus
+        if not others or self.rng.random() >= p:
             return cur
         pick = others[self.rng.randrange(len(others))]
         self.recorded.append([cur, dp, pick])
@@ -85,7 +100,7 @@ class ListChooser:
             return cur
         return runnable[0]
 
-    def at_line(self, cur, dp, others):
+    def at_line(self, cur, dp, others, filename=None):
         nxt = self.map.get((cur, dp))
         if nxt is not None and nxt in others:
             self.used += 1
@@ -173,7 +188,7 @@ class Scheduler:
             self.on_event("cancel_line", task.tid, task.lines)
             raise SimCancel("line %d" % task.lines)
         others = [t for t in self._runnable() if t != task.tid]
-        nxt = self.chooser.at_line(task.tid, task.dp, others)
+        nxt = self.chooser.at_line(task.tid, task.dp, others, frame.f_code.co_filename)
         if nxt != task.tid:
             self._hand_over(task, nxt)
         return self._local_trace
